@@ -329,6 +329,9 @@ class Renderer:
                         txt += " "
                     txt += ", ".join(self.idn(v) for v in vars_)
                 afters.append(Line(txt, d.get("doc"), self.docsty(d.get("doc"))))
+            elif kind == "stmt":
+                # a specification statement given as keyword + rest (e.g. OPTIONAL for a dummy procedure)
+                afters.append(Line(self.kw(d["kw"]) + d["rest"]))
             elif kind == "namelist":
                 afters.append(Line(f"{self.kw('namelist')} /{self.idn(d['name'])}/ " + ", ".join(self.idn(v) for v in d["vars"]),
                                    d.get("doc"), self.docsty(d.get("doc"))))
